@@ -48,7 +48,7 @@ from bounded import _calendar_spec as cal
 assert os.path.abspath(qstrader.__file__).startswith(
     os.path.abspath(os.environ.get("QSTRADER_ROOT", "/repo"))
 ), "qstrader resolves to %s" % qstrader.__file__
-qstrader.settings.PRINT_EVENTS = False
+qstrader.settings.PRINT_EVENTS = os.environ.get("PYVC_AMBIENT") == "1"
 
 PROPERTY = "C12"
 
@@ -147,6 +147,14 @@ def check_case(case, bdays_cache=None):
     results = []
 
     expect_reject = end < start
+    if not expect_reject:
+        # an EARLIER clock over the same two dates at other times of day (a calendar is a function of the instants, not of the dates)
+        o_start, o_end = start.replace(hour=14, minute=30, second=0), end.replace(hour=0, minute=0, second=0)
+        if o_start <= o_end:
+            try:
+                DailyBusinessDaySimulationEngine(_ts(o_start), _ts(o_end), pre_market=True, post_market=False)
+            except Exception:
+                pass
     try:
         engine = DailyBusinessDaySimulationEngine(_ts(start), _ts(end), pre_market=pre, post_market=post)
         observed_ctor = "accepted"
